@@ -90,6 +90,21 @@ destruct (lti_meas_ctor (mzero (length idxs) n) R) as [e|[H0 R']].
   destruct e; try contradiction.
   destruct L as [k [-> [E [ge F]]]]. simpl. repeat split; auto.
 Qed.
+
+(* conversely: with admissible shapes, an index outside the state vector is rejected,
+   and the error names the first such index *)
+Lemma linear_model_rejects n (idxs : list nat) rr rc (R : M O rr rc) :
+  0 < length idxs -> 0 < n -> rr = rc -> length idxs = rr -> ~ Forall (fun c => c < n) idxs ->
+  exists p v, linear_model_ctor n idxs R = inl (ErrIndex p v) /\
+              nth_error idxs p = Some v /\ n <= v /\ Forall (fun c => c < n) (firstn p idxs).
+Proof.
+intros mp np sq mr bad.
+pose proof (linear_model_ctor_spec n idxs rr rc R) as S. cbv zeta in S.
+destruct (linear_model_ctor n idxs R) as [e|[[H R'] L]].
+- destruct e as [| | | |p v]; try lia.
+  exists p, v. destruct S as [_ [E [ge F]]]. auto.
+- destruct S as [_ [_ [_ [_ [_ [_ [_ F]]]]]]]. contradiction.
+Qed.
 End Ctors.
 
 Section Sim.
@@ -134,8 +149,8 @@ Definition sim_wf (st : state) : Prop :=
 
 Lemma sim_ctor_spec x0 len zs :
   match sim_ctor motion x0 len zs with
-  | None => len = 0
-  | Some st =>
+  | inl ErrSimEmpty => len = 0
+  | inr st =>
       0 < len /\ sim_wf st /\ sim_time st = len /\ sim_cur st = 0 /\ sim_data st = None /\
       (forall k, k < len -> nth_error (sim_target st) k = Some (fst (iter_motion k (x0, zs))))
   end.
@@ -217,7 +232,7 @@ Qed.
 
 (* bufferData() issued after an arbitrary history [pre] on a freshly constructed model *)
 Lemma sim_serving x0 len zs st pre :
-  sim_ctor motion x0 len zs = Some st ->
+  sim_ctor motion x0 len zs = inr st ->
   let st1 := snd (sim_run st pre) in
   let c := since_reset pre in
   (c < len ->
@@ -307,7 +322,7 @@ Qed.
 
 (* a freeze issued after an arbitrary history on a sensor built over a fresh trajectory *)
 Lemma sensor_serving H LR x0 len zs sim0 zs2 pre :
-  sim_ctor motion x0 len zs = Some sim0 ->
+  sim_ctor motion x0 len zs = inr sim0 ->
   let st1 := snd (sensor_run H LR (mkSens sim0 zs2 None) pre) in
   let c := since_reset (map proj_op pre) in
   (c < len ->
@@ -339,4 +354,40 @@ unfold sensor_freeze. destruct (sim_step (sens_sim st) SimBuffer) as [s' ok]. de
 - destruct (sim_data s'); simpl; auto.
 - simpl; auto.
 Qed.
+
+(* the sensor's generator is advanced by exactly m draws per successful freeze and by nothing
+   else: after any history the draws left are the initial ones minus m per success *)
+Fixpoint freeze_successes (ops : list sens_op) (outs : list (bool * option (M O m 1))) : nat :=
+  match ops, outs with
+  | op :: ops', (b, _) :: outs' =>
+      (match op with SensFreeze => if b then 1 else 0 | _ => 0 end) + freeze_successes ops' outs'
+  | _, _ => 0
+  end.
+
+Lemma skipn_skipn_add (A : Type) a b (l : list A) : skipn a (skipn b l) = skipn (b + a) l.
+Proof.
+revert l; induction b as [|b IH]; intros [|x l]; simpl; auto. now rewrite skipn_nil.
+Qed.
+
+Lemma sensor_run_draws H LR ops : forall (st : sstate),
+  sens_zs (snd (sensor_run H LR st ops)) =
+  skipn (m * freeze_successes ops (fst (sensor_run H LR st ops))) (sens_zs st).
+Proof.
+induction ops as [|op ops IH]; intros st; simpl.
+- now rewrite Nat.mul_0_r.
+- assert (D : let '(st', b) := sensor_step H LR st op in
+              sens_zs st' = skipn (m * (match op with SensFreeze => if b then 1 else 0 | _ => 0 end)) (sens_zs st)).
+  { destruct op; simpl.
+    - pose proof (sensor_freeze_draws H LR st) as F. destruct (sensor_freeze H LR st) as [st' ok].
+      destruct ok; [exact F|]. destruct F as [F _]. now rewrite Nat.mul_0_r.
+    - now rewrite Nat.mul_0_r.
+    - now rewrite Nat.mul_0_r. }
+  destruct (sensor_step H LR st op) as [st' b]. specialize (IH st').
+  destruct (sensor_run H LR st' ops) as [outs stf]. simpl in *.
+  rewrite IH, D, skipn_skipn_add. f_equal. lia.
+Qed.
 End Sim.
+
+Arguments sim_wf {O d} st.
+Arguments iter_motion {O d} motion k p.
+Arguments freeze_successes {O m} ops outs.
